@@ -4,8 +4,6 @@
 # brings its obligation back. Applies patches to /repo and reverts them; refuses to run on a dirty /repo.
 cd /verif
 if [ -n "$(git -C /repo status --porcelain --untracked-files=no)" ]; then echo "refusing: /repo is dirty"; exit 2; fi
-echo "== 1. claimed checks on the unchanged tree"
-for p in $(python3 -c "import json;print(' '.join(c['property_id'] for c in json.load(open('MANIFEST.json'))['checks']))"); do ./check $p quick | tail -1; done
 echo "== 2. harmless edits"
 for d in selftest/harmless/*.diff; do
   props=$(head -1 "$d" | sed -n 's/^# checks: //p')
@@ -15,3 +13,6 @@ for d in selftest/harmless/*.diff; do
 done
 echo "== 3. seeded changes"; python3 tools/run_seeded.py
 echo "== 4. canaries"; python3 tools/canaries.py
+echo "== 1. claimed checks on the unchanged tree (last, so that the evidence files left behind come from the unchanged tree)"
+for p in $(python3 -c "import json;print(' '.join(c['property_id'] for c in json.load(open('MANIFEST.json'))['checks']))"); do ./check $p quick | tail -1; done
+
